@@ -65,3 +65,76 @@ def f32_assumptions(cx, man, chk):
         if int(m.group(2)) or m.group(3) != '1' or int(m.group(4)):
             cx.broken.append(('assumption', 'a named f32 hypothesis (WTextOk / product closure) fails on Rust f32', out[:400]))
     cx.cov.setdefault('extra', {})['f32_assumption_sweep'] = info
+
+
+def _lean_strings(path, name):
+    """the string literals of `def <name> : List String := [...]` in a generated Lean file"""
+    s = open(path, encoding='utf-8').read()
+    m = re.search(r'def %s : List String := \[(.*?)\]\n' % name, s, re.S)
+    if not m:
+        return None
+    return [json.loads(x) for x in re.findall(r'"(?:[^"\\]|\\.)*"', m.group(1))]
+
+
+def regex_difference_search(cx, man, chk):
+    """SEARCH SUPPORT ONLY (never stands in for a theorem).  If the seven pattern literals read from the source differ from
+    the ones the model's recognisers were written for (the seed copy), look for strings on which the two sets of
+    patterns classify differently -- with Python's `re`, which agrees with the `regex` crate on this syntax closely
+    enough to *find candidates* -- and put them through the real parser, the model and the specification oracle."""
+    import re as _re
+    here = os.path.dirname(os.path.dirname(os.path.abspath(__file__)))
+    cur = _lean_strings(os.path.join(here, 'lean', 'EspadaVerif', 'Gen', 'Token.lean'), 'tokenRegexSrc')
+    exp = _lean_strings(os.path.join(here, 'translate', 'seed', 'Token.lean'), 'tokenRegexSrc')
+    info = {'literals_changed': bool(cur and exp and cur != exp)}
+    cx.cov.setdefault('extra', {})['regex_difference_search'] = info
+    if not (cur and exp) or cur == exp:
+        return
+
+    def comp(p):
+        # `$` of the regex crate = end of text only
+        q = p[:-1] + r'\Z' if p.endswith('$') and not p.endswith(r'\$') else p
+        try:
+            return _re.compile(q)
+        except _re.error:
+            return None
+    rc, re_ = [comp(p) for p in cur], [comp(p) for p in exp]
+    if any(r is None for r in rc + re_) or len(rc) != len(re_):
+        info['note'] = 'a literal is not Python-compatible; no directed search'
+        return
+    ranks, suits = 'AKQJT98765432', 'shdc'
+    seeds = set()
+    for a in 'AK72':
+        for b in 'AQ72':
+            seeds.update([a + a, a + a + '+', a + a + '-' + b + b, a + b + 's', a + b + 'o', a + b + 's+', a + b + 'o+',
+                          a + b + 's-' + a + '2s', a + b + 'o-' + a + '2o', a + 's' + b + 'h', a + 'c' + b + 'd'])
+    weights = ['', ':0', ':1', ':0.5', ':1.0', ':0.25', ':1.00', ':0.', ':.5', ':2', ':1.5', ':00', ':0.5.5', ':1e0', ':-0', ': 1', ':']
+    alphabet = list(ranks[:3] + '2' + suits + 'so+-:.01 59xX,\n\t') + ['٣', '１', 'é', '\U0001F0A1']
+    cands = set()
+    for t in seeds:
+        for w in weights:
+            cands.add(t + w)
+    base = sorted(cands)
+    for s in base:
+        for i in range(len(s) + 1):
+            for ch in alphabet:
+                cands.add(s[:i] + ch + s[i:])            # insertion
+                if i < len(s):
+                    cands.add(s[:i] + ch + s[i + 1:])    # replacement
+            if i < len(s):
+                cands.add(s[:i] + s[i + 1:])             # deletion
+        cands.add(s + s)
+        cands.add(' ' + s)
+        cands.add(s + ' ')
+
+    def classify(rs, s):
+        return tuple(bool(r.search(s)) for r in rs)
+    diff = sorted((s for s in cands if classify(rc, s) != classify(re_, s)), key=lambda s: (len(s), s))[:600]
+    info.update({'candidates': len(cands), 'classified_differently': len(diff), 'samples': [repr(s) for s in diff[:8]]})
+    if not diff:
+        return
+    ops = os.path.join(cx.work, 'regex_diff.ops')
+    with open(ops, 'w') as f:
+        for s in diff:
+            h = s.encode('utf-8').hex() or '-'
+            f.write('parse_token %s\nparse_range %s\n' % (h, h))
+    chk.correspond(cx, ops, 'regex-difference-search', 'debug')
